@@ -242,6 +242,25 @@ def step (s : Sys) : Act → Sys × Option Obs
       | _ => (s, none)
     | none => (s, none)
 
+/-! ### the call site: stream.go `csAttempt.getTransport`
+
+Every attempt of an RPC — the first one, a transparent retry, a retry under the retry policy —
+picks through `getTransport`, which passes `cs.callInfo.failFast` (false = the RPC is
+wait-for-ready) to `pick`, whatever the attempt number. `CallState` holds the clientStream fields
+that are in scope there. -/
+
+structure CallState where
+  failFast : Bool       -- cs.callInfo.failFast (FailFast / WaitForReady call option, service config)
+  numRetries : Nat      -- cs.numRetries: completed non-transparent retry attempts
+  firstAttempt : Bool   -- cs.firstAttempt
+deriving DecidableEq, Repr, Inhabited
+
+/-- `pick, err := cs.cc.pickerWrapper.pick(a.ctx, cs.callInfo.failFast, pickInfo)` -/
+def attemptFailfast (cs : CallState) : Bool := cs.failFast
+
+/-- an attempt of an RPC in call state `cs` starts its pick -/
+def attemptStart (tid : Nat) (cs : CallState) : Act := .start tid (attemptFailfast cs)
+
 /-- Run a sequence of actions from (s, log); the trace is in chronological order. -/
 def runFrom (s : Sys) (log : List Obs) : List Act → Sys × List Obs
   | [] => (s, log)
